@@ -384,16 +384,21 @@ func mustURL(s string) url.URL {
 // newIDP builds the real IdentityProvider for a model configuration. The
 // certificate is the one of the key the model says signs (Signer when set).
 func newIDP(cfg mCfg, reg *stubRegistry, sess *saml.Session) *saml.IdentityProvider {
-	idp := &saml.IdentityProvider{
-		Key:                     keyOf(cfg.Key),
-		Logger:                  log.New(io.Discard, "", 0),
-		Certificate:             certOf(cfg.Key),
-		MetadataURL:             mustURL(cfg.Entity),
-		SSOURL:                  mustURL(cfg.SSOURL),
-		ServiceProviderProvider: reg,
-		SessionProvider:         stubSessions{sess},
-		SignatureMethod:         cfg.Method,
-	}
+	idp := &saml.IdentityProvider{Logger: log.New(io.Discard, "", 0), ServiceProviderProvider: reg}
+	configureIDP(idp, cfg, sess)
+	return idp
+}
+
+// configureIDP assigns the configuration to an existing IdentityProvider value, field by field —
+// for a long-lived value this is the in-place rotation an application performs.
+func configureIDP(idp *saml.IdentityProvider, cfg mCfg, sess *saml.Session) {
+	idp.Key = keyOf(cfg.Key)
+	idp.Certificate = certOf(cfg.Key)
+	idp.Signer = nil
+	idp.MetadataURL = mustURL(cfg.Entity)
+	idp.SSOURL = mustURL(cfg.SSOURL)
+	idp.SessionProvider = stubSessions{sess}
+	idp.SignatureMethod = cfg.Method
 	if cfg.Signer != nil {
 		switch {
 		case *cfg.Signer == ecSignerID:
@@ -405,7 +410,74 @@ func newIDP(cfg mCfg, reg *stubRegistry, sess *saml.Session) *saml.IdentityProvi
 		}
 		idp.Certificate = certOfAny(*cfg.Signer)
 	}
-	return idp
+}
+
+// ---------- one long-lived IdentityProvider and a registry that stores metadata objects ----------
+
+// liveRegistry hands out the SAME stored *EntityDescriptor for an entity every time (as samlidp does);
+// metadata changes are made IN PLACE on the stored object.
+type liveRegistry struct {
+	sps map[string]*liveSP
+}
+type liveSP struct {
+	ed      *saml.EntityDescriptor
+	md      *mMeta
+	applied string
+}
+
+func (r *liveRegistry) GetServiceProvider(_ *http.Request, id string) (*saml.EntityDescriptor, error) {
+	if sp, ok := r.sps[id]; ok {
+		return sp.ed, nil
+	}
+	return nil, os.ErrNotExist
+}
+
+type idpWorld struct {
+	idp *saml.IdentityProvider
+	reg *liveRegistry
+}
+
+func newWorld() *idpWorld {
+	reg := &liveRegistry{sps: map[string]*liveSP{}}
+	return &idpWorld{idp: &saml.IdentityProvider{Logger: log.New(io.Discard, "", 0), ServiceProviderProvider: reg}, reg: reg}
+}
+
+// setSP registers md under key; when the content differs from what is stored, the stored object is
+// overwritten in place (same pointer, new content). Unchanged metadata is left untouched, so that damage
+// done to the stored object by anything else stays visible.
+func (w *idpWorld) setSP(key string, md *mMeta) {
+	t := md.term() + certTable(md)
+	sp, ok := w.reg.sps[key]
+	if !ok {
+		w.reg.sps[key] = &liveSP{ed: md.toSAML(), md: md, applied: t}
+		return
+	}
+	if sp.applied != t {
+		*sp.ed = *md.toSAML()
+		sp.md, sp.applied = md, t
+	}
+}
+
+// failingWriter accepts only the first [limit] bytes of the body and then reports an error
+// (short = true: reports a short write without error first).
+type failingWriter struct {
+	http.ResponseWriter
+	limit int
+	short bool
+}
+
+func (f *failingWriter) Write(p []byte) (int, error) {
+	if f.limit >= len(p) {
+		f.limit -= len(p)
+		return f.ResponseWriter.Write(p)
+	}
+	n := f.limit
+	f.limit = 0
+	_, _ = f.ResponseWriter.Write(p[:n])
+	if f.short {
+		return n, nil
+	}
+	return n, errors.New("connection reset by peer")
 }
 
 // withGlobals sets the package variables the IdP reads and restores them.
